@@ -140,3 +140,69 @@ def rs1024(ex, n):
         if n <= 4:
             claims[f"other_customization_fails_{int(ext)}"] = slip39._rs1024_verify(full, not ext) == False  # noqa: E712
     return claims
+
+
+# ------------------------------------------------------------------ BIP39 at the level of word indexes (the word lists and NFKD text are outside)
+import hashlib as _hashlib
+from btclib.mnemonic import bip39 as _bip39
+
+_BIP39_STUBS = ["sha256 is an uninterpreted function (the checksum bits are arbitrary)", "the word list look-ups are stubbed: mnemonic_from_indexes records the indexes it is handed and answers a token, "
+                "indexes_from_mnemonic answers the indexes under test; normalisation and language detection are the identity (text is outside)"]
+
+
+def _bip39_install(ex, box):
+    def to_words(indexes, lang, wordlists=None, separator=" "):
+        box["indexes"] = list(indexes)
+        return "@sentence@"
+    ex.stub(_bip39.mnemonic_from_indexes, to_words)
+    ex.stub(_bip39.indexes_from_mnemonic, lambda m, lang, *a, **k: list(box["indexes"]))
+    ex.stub(_bip39.normalize_mnemonic, lambda m: m)
+    ex.stub(_bip39.lang_from_mnemonic, lambda m: "en")
+
+
+@ob("C13", "bip39_entropy_to_indexes_and_back", quick=[dict(nbytes=n) for n in (16, 20, 32)], thorough=[dict(nbytes=n) for n in (16, 20, 24, 28, 32)],
+    bound="every entropy of 16 / 20 / 24 / 28 / 32 octets (all symbolic): the sentence has (8n + n/4) / 11 words whose indexes are the 11-bit slices of entropy || first n/4 bits of sha256(entropy), "
+          "and reading those indexes back answers exactly the entropy's bits, leading zero octets included",
+    stubs=_BIP39_STUBS, functions=["btclib.mnemonic.bip39.mnemonic_from_entropy", "btclib.mnemonic.bip39.entropy_from_mnemonic", "btclib.mnemonic.bip39._entropy_checksum",
+                                   "btclib.mnemonic.entropy.wordlist_indexes_from_bin_str_entropy", "btclib.mnemonic.entropy.bin_str_entropy_from_wordlist_indexes"],
+    outside=["word lists, languages, NFKD normalisation, the PBKDF2 seed (text is not symbolic)"], timeout=900, min_ok=1, weight=3, max_decisions=20000)
+def bip39_roundtrip(ex, nbytes):
+    box = {}
+    _bip39_install(ex, box)
+    ent = ex.bytes("ent", nbytes)
+    cs_bits = nbytes // 4
+    _bip39.mnemonic_from_entropy(ent, "en")
+    idx = box["indexes"]
+    nwords = (8 * nbytes + cs_bits) // 11
+    E = int.from_bytes(ent, "big")
+    digest = _hashlib.sha256(ent).digest()
+    whole = (E << cs_bits) | (digest[0] >> (8 - cs_bits))
+    claims = {"word_count": len(idx) == nwords}
+    if len(idx) == nwords:
+        claims["indexes_are_the_11_bit_slices_of_entropy_and_checksum"] = sand(*[idx[j] == ((whole >> (11 * (nwords - 1 - j))) & 2047) for j in range(nwords)])
+    back = _bip39.entropy_from_mnemonic("@sentence@", "en")
+    claims["reads_back_to_the_entropy"] = sand(len(back) == 8 * nbytes, int(back, 2) == E)
+    return claims
+
+
+@ob("C13", "bip39_sentence_is_accepted_exactly_with_its_checksum", quick=[dict(words=12), dict(words=24)], thorough=[dict(words=w) for w in (12, 15, 18, 21, 24)],
+    bound="every list of 12 / 15 / 18 / 21 / 24 word indexes (each symbolic over 0..2047): entropy_from_mnemonic accepts exactly when the trailing words/3 bits are the first bits of sha256 of the "
+          "leading 32*words/3 bits taken as octets, and then answers those bits",
+    stubs=_BIP39_STUBS, functions=["btclib.mnemonic.bip39.entropy_from_mnemonic", "btclib.mnemonic.bip39._entropy_checksum", "btclib.mnemonic.entropy.bin_str_entropy_from_wordlist_indexes"],
+    outside=["word counts the BIP does not define", "text"], timeout=900, min_ok=1, weight=3)
+def bip39_checksum(ex, words):
+    box = {"indexes": [ex.int(f"w{j}", 0, 2047) for j in range(words)]}
+    _bip39_install(ex, box)
+    cs_bits = words // 3
+    ent_bits = 32 * cs_bits
+    whole = 0
+    for v in box["indexes"]:
+        whole = whole * 2048 + v
+    E = whole >> cs_bits
+    digest = _hashlib.sha256(E.to_bytes(ent_bits // 8, "big")).digest()
+    want = (whole & ((1 << cs_bits) - 1)) == (digest[0] >> (8 - cs_bits))
+    try:
+        back = _bip39.entropy_from_mnemonic("@sentence@", "en")
+    except BTClibValueError:
+        return ex.refuse("BTClibValueError", refused_only_a_wrong_checksum=snot(want))
+    return {"accepted_only_the_right_checksum": want, "entropy_is_the_leading_bits": sand(len(back) == ent_bits, int(back, 2) == E)}
